@@ -169,7 +169,7 @@ class C02(Property):
     sys.unraisablehook = lambda *a: None
 
   def budget(self, tier):
-    return (100000, 60.0) if tier == "quick" else (20000000, 780.0)
+    return (300000, 60.0) if tier == "quick" else (20000000, 780.0)
 
   # ---------------------------------------------------------------- workload
   def gen_workload(self, W, index):
